@@ -27,7 +27,7 @@ m = {
     "hooks": {
         "guard": "verif",
         "enable": "no source hooks: harnesses are in-package overlay files (/verif/harness/<pkg>/zz_*.go, //go:build verif) injected by go/packages Overlay (symbolic build) and go test -overlay (native replay); the loader sets the tag",
-        "baseline_off_cmd": "cd /repo && go test -mod=mod -vet=off -count=1 ./combination/... ./pot/... ./regulator/... ./settlement/... ./testcases/...",
+        "baseline_off_cmd": "cd /repo && GOFLAGS= go test -vet=off -count=1 ./combination/... ./pot/... ./regulator/... ./settlement/... ./testcases/...",
         "source_commits": data.get('hook_commits', []),
         "add_only": True,
     },
